@@ -400,3 +400,7 @@ mutant("c20-print-to-file-kw-bytes-py2", "C20", "cvss/cvss_calculator.py",
        '            print("Cleaned vector:       ", cvss_vector.clean_vector())',
        '            print("Cleaned vector:       ", cvss_vector.clean_vector().encode("ascii").decode("ascii") if str is not bytes else repr(cvss_vector.clean_vector()))',
        "Python 2 branch prints the repr (u'...')")
+mutant("c17-all-flag-not-passed-on", "C17", "cvss/cvss_calculator.py",
+       "            vector_string = ask_interactively(version, args.all, args.no_colors)",
+       "            vector_string = ask_interactively(version, args.all and not args.json, args.no_colors)",
+       "-a is ignored when -j is given as well (clause g: the dialogue must ask all metrics)")
